@@ -12,6 +12,7 @@ import KodaModel.Properties.C03Seq
 import KodaModel.Properties.C03NTuple
 import KodaModel.Properties.C03Map
 import KodaModel.Properties.C04Record
+import KodaModel.Properties.C04Class
 import KodaModel.Properties.C06
 
 namespace Koda
@@ -81,6 +82,29 @@ theorem C06_src_record (o : Oracle) (cS cA : DictAnyCfg) (hv : cS.vid = cA.vid) 
   rw [src_record_sync o] at h
   rw [src_record_async o, ← hv, ← hr]
   exact recordStep_agree o cS.vid cS.toRecord he x r t h hr'
+
+/-- `TypedDictValidator` -/
+theorem C06_src_typeddict (o : Oracle) (cS cA : DictAnyCfg) (hv : cS.vid = cA.vid) (hr : cS.toTD = cA.toTD)
+    (he : RelL cS.evs cA.evs) (x : PyVal)
+    (hS : ∀ y t, tdGate cS x = .acc y t → (dictItems y).isSome = true)
+    (hA : ∀ y t, tdGate cA x = .acc y t → (dictItems y).isSome = true)
+    (r : Out) (t : List Ev) (h : runDictAnyMethod cS Src.typedDictSync x = some (r, t)) (hne : r ≠ .raised .assertion) :
+    ∃ ta, runDictAnyMethod cA Src.typedDictAsync x = some (r, ta) ∧ noA ta = true := by
+  rw [src_typeddict_sync o cS x hS] at h
+  rw [src_typeddict_async o cA x hA, ← hv, ← hr]
+  exact recordStep_agree o cS.vid cS.toTD he x r t h hne
+
+/-- `DataclassValidator` / `NamedTupleValidator` -/
+theorem C06_src_class (o : Oracle) (cS cA : DictAnyCfg) (hv : cS.vid = cA.vid) (hr : cS.toClass = cA.toClass)
+    (he : RelL cS.evs cA.evs) (x : PyVal)
+    (hS : ∀ y t, clsGate cS x = .acc y t → (dictItems y).isSome = true)
+    (hA : ∀ y t, clsGate cA x = .acc y t → (dictItems y).isSome = true)
+    (hwS : ∀ c v, x = .sub c v → c ≠ cS.cls) (hwA : ∀ c v, x = .sub c v → c ≠ cA.cls)
+    (r : Out) (t : List Ev) (h : runDictAnyMethod cS Src.dataclassSync x = some (r, t)) (hne : r ≠ .raised .assertion) :
+    ∃ ta, runDictAnyMethod cA Src.dataclassAsync x = some (r, ta) ∧ noA ta = true := by
+  rw [src_dataclass_sync o cS x hS hwS] at h
+  rw [src_dataclass_async o cA x hA hwA, ← hv, ← hr]
+  exact recordStep_agree o cS.vid cS.toClass he x r t h hne
 
 /-- the scalar pipeline of `_internal.py` (behind all ten scalar validators) -/
 theorem C06_src_scalar (o : Oracle) (cfg : ScalarCfg) (x : PyVal) (r : Out) (t : List Ev)
